@@ -157,7 +157,7 @@ def gen_template(rng: random.Random) -> Recipe:
                          "sp": sp, "ns": ns, "nc": rng.choice([1, 1, 2]),
                          "sum_param": _sum_param(rng), "mixing": rng.random() < 0.6}}
     if t in ("hmm", "fully_factorized"):
-        n = rng.randint(1, 5) if t == "fully_factorized" else rng.randint(2, 5)
+        n = rng.randint(1, 5)  # single-variable models included
         inp = rng.choice(["categorical", "categorical", "binomial", "gaussian"])
         if inp == "categorical":
             if rng.random() < 0.5:
